@@ -24,6 +24,8 @@ Lemma gen_usability :
 Proof. cbv; intuition. Qed.
 Lemma gen_dist : (dist_type_value Sdist < dist_type_value Wheel)%Z.
 Proof. reflexivity. Qed.
+Lemma gen_abi_compressed : abi_test_compressed = true.
+Proof. reflexivity. Qed.
 Lemma gen_interp : interp_tag = "cp".
 Proof. reflexivity. Qed.
 Lemma gen_alias_keys :
@@ -380,9 +382,9 @@ Qed.
 
 (* ABI tags *)
 Lemma abi_ok_check r abi :
-  wf_raw r = true -> abi_ok r abi -> abi = "none" \/ check_abi (cfg_of r) abi = true.
+  wf_raw r = true -> abi_ok r abi -> abi = "none" \/ In abi (c_abi_tags (cfg_of r)).
 Proof.
-  intros W [->|[->|[-> A]]]; auto; right; unfold check_abi; apply mem_In; cbn [cfg_of c_abi_tags].
+  intros W [->|[->|[-> A]]]; auto; right; cbn [cfg_of c_abi_tags].
   - right. left. unfold cp_abi. rewrite gen_interp. reflexivity.
   - left. destruct (wf_raw_inv r W) as ([E|E] & _).
     + unfold abi3_applies, pair_ltb in A. cbn [fst snd] in A. rewrite E in A. cbn in A. discriminate.
@@ -439,23 +441,26 @@ Qed.
 
 Lemma supported_eligible r t id v build pyf abif platf fn :
   wf_raw r = true -> In t (sys_tags r) ->
-  single_abi abif ->
   (legacy_arch (r_arch r) = true \/ is_legacy_name (snd t) = false) ->
   wheel_has_tag pyf abif platf t ->
   eligible (cfg_of r) (wheel_cand id v build pyf abif platf fn) = true.
 Proof.
-  intros W Hin Hsingle G Hhas. destruct t as [[py abi] plat]. cbn [snd] in G.
+  intros W Hin G Hhas. destruct t as [[py abi] plat]. cbn [snd] in G.
   destruct Hhas as (Hpy & Habi & Hplat).
-  unfold single_abi in Hsingle. rewrite Hsingle in Habi. destruct Habi as [<-|[]].
   destruct (sys_tags_inv _ _ _ _ Hin) as (Opy & Oabi & Oplat).
   unfold eligible, check_usability. rewrite find_none; auto.
   intros rsn _. destruct rsn; cbn [test_fails wheel_cand k_py k_abi k_plats]; auto.
   - rewrite (py_compat_in _ _ py); auto; [apply dedup_In; auto|apply py_ok_compatible; auto].
-  - destruct (abi_ok_check _ _ W Oabi) as [->|H]; [reflexivity|].
-    destruct (String.eqb abif "none"); auto. rewrite H. reflexivity.
+  - destruct (String.eqb abif "none"); auto.
+    unfold check_abi. rewrite gen_abi_compressed.
+    assert (existsb (fun t => String.eqb t "none" || mem t (c_abi_tags (cfg_of r))) (split_char dot abif) = true) as ->;
+      [|reflexivity].
+    apply existsb_exists. exists abi. split; [exact Habi|].
+    destruct (abi_ok_check _ _ W Oabi) as [->|H]; [reflexivity|].
+    apply (proj2 (mem_In _ _)) in H. rewrite H. apply orb_true_r.
   - rewrite (plat_ok_check r plat); auto. apply dedup_In; auto.
 Qed.
-(* the full statement (false of the code as it is: see the two refutations below) *)
+(* the full statement (false of the code as it is: see legacy_alias_arch_refuted below) *)
 Definition supported_eligible_full_statement : Prop :=
   forall r t id v build pyf abif platf fn,
   wf_raw r = true -> In t (sys_tags r) -> wheel_has_tag pyf abif platf t ->
@@ -475,39 +480,41 @@ Definition v10 : version := mkV 0 [1; 0]%N None None None [].
 
 Example supported_eligible_nontrivial :
   wf_raw r312 = true /\ In ("cp311", "abi3", "manylinux2014_x86_64") (sys_tags r312)
-  /\ single_abi "abi3" /\ legacy_arch (r_arch r312) = true
-  /\ wheel_has_tag "cp311.cp312" "abi3" "win_amd64.manylinux2014_x86_64" ("cp311", "abi3", "manylinux2014_x86_64")
+  /\ legacy_arch (r_arch r312) = true
+  /\ wheel_has_tag "cp311.cp312" "cp311.abi3" "win_amd64.manylinux2014_x86_64" ("cp311", "abi3", "manylinux2014_x86_64")
   /\ List.length (sys_tags r312) = 987%nat.
 Proof.
   split; [reflexivity|]. split; [apply mem_tag_In; vm_compute; reflexivity|].
-  split; [reflexivity|]. split; [reflexivity|]. split; [cbv; tauto|vm_compute; reflexivity].
+  split; [reflexivity|]. split; [cbv; tauto|vm_compute; reflexivity].
 Qed.
 
-Lemma compressed_abi_refuted :
-  exists r t pyf abif platf,
-    wf_raw r = true /\ In t (sys_tags r) /\ wheel_has_tag pyf abif platf t
-    /\ legacy_arch (r_arch r) = true
-    /\ forall id v build fn, eligible (cfg_of r) (wheel_cand id v build pyf abif platf fn) = false.
+(* since c54d5f0 (fix of the former C20-compressed-abi finding): the witness of the former
+   compressed_abi_refuted is eligible - an instance of supported_eligible, and by computation *)
+Lemma compressed_abi_eligible :
+  wf_raw r312 = true /\ In ("cp312", "abi3", "linux_x86_64") (sys_tags r312)
+  /\ wheel_has_tag "cp312" "abi3.cp312" "linux_x86_64" ("cp312", "abi3", "linux_x86_64")
+  /\ forall id v build fn,
+       eligible (cfg_of r312) (wheel_cand id v build "cp312" "abi3.cp312" "linux_x86_64" fn) = true.
 Proof.
-  exists r312, ("cp312", "abi3", "linux_x86_64"), "cp312", "abi3.cp312", "linux_x86_64".
-  split; [reflexivity|]. split; [apply mem_tag_In; vm_compute; reflexivity|].
-  split; [cbv; tauto|]. split; [reflexivity|]. intros. vm_compute. reflexivity.
+  assert (In ("cp312", "abi3", "linux_x86_64") (sys_tags r312)) as Hin by (apply mem_tag_In; vm_compute; reflexivity).
+  assert (wheel_has_tag "cp312" "abi3.cp312" "linux_x86_64" ("cp312", "abi3", "linux_x86_64")) as Hhas by (cbv; tauto).
+  split; [reflexivity|]. split; [exact Hin|]. split; [exact Hhas|].
+  intros. apply (supported_eligible r312 ("cp312", "abi3", "linux_x86_64")); auto.
 Qed.
 
 Lemma legacy_alias_arch_refuted :
   exists r t pyf abif platf,
     wf_raw r = true /\ In t (sys_tags r) /\ wheel_has_tag pyf abif platf t
-    /\ single_abi abif
     /\ forall id v build fn, eligible (cfg_of r) (wheel_cand id v build pyf abif platf fn) = false.
 Proof.
   exists r312_arm, ("cp312", "cp312", "manylinux2014_aarch64"), "cp312", "cp312", "manylinux2014_aarch64".
   split; [reflexivity|]. split; [apply mem_tag_In; vm_compute; reflexivity|].
-  split; [cbv; tauto|]. split; [reflexivity|]. intros. vm_compute. reflexivity.
+  split; [cbv; tauto|]. intros. vm_compute. reflexivity.
 Qed.
 
 Lemma supported_eligible_full_statement_false : ~ supported_eligible_full_statement.
 Proof.
-  intros F. destruct compressed_abi_refuted as (r & t & pyf & abif & platf & W & Hin & Hhas & _ & Hno).
+  intros F. destruct legacy_alias_arch_refuted as (r & t & pyf & abif & platf & W & Hin & Hhas & Hno).
   specialize (F r t 0%N v10 "" pyf abif platf "" W Hin Hhas). rewrite Hno in F. discriminate.
 Qed.
 
@@ -570,11 +577,15 @@ Proof.
 Qed.
 
 Lemma foreign_abi c k a :
-  k_abi k = Some a -> ~ In a (c_abi_tags c) -> eligible c k = false.
+  k_abi k = Some a ->
+  (forall t, In t (split_char dot a) -> t <> "none" /\ ~ In t (c_abi_tags c)) ->
+  eligible c k = false.
 Proof.
   intros E H. apply (rejected_if c k WrongAbi); [apply gen_usability|].
-  cbn [test_fails]. rewrite E. unfold check_abi.
-  destruct (mem a (c_abi_tags c)) eqn:M; [apply mem_In in M; contradiction|reflexivity].
+  cbn [test_fails]. rewrite E. unfold check_abi. rewrite gen_abi_compressed.
+  rewrite existsb_false; [reflexivity|]. intros t Ht. destruct (H t Ht) as (Hn & Hi).
+  apply String.eqb_neq in Hn. rewrite Hn. cbn [orb].
+  destruct (mem t (c_abi_tags c)) eqn:M; [apply mem_In in M; contradiction|reflexivity].
 Qed.
 
 Lemma abi_flags_nondigit r : starts_nondigit (abi_flags r) = true.
@@ -587,41 +598,50 @@ Lemma append_assoc_s (a b c : string) : (a ++ b) ++ c = a ++ b ++ c.
 Proof. induction a; cbn; congruence. Qed.
 
 (* an ABI tag of another CPython generation (any flag suffix), or another stable-ABI major *)
-Lemma other_abi_generation r k M' m' fl :
-  wf_raw r = true -> (M' <= 9)%N -> starts_nondigit fl = true ->
-  (M', m') <> (r_major r, r_minor r) ->
-  k_abi k = Some ("cp" ++ dec M' ++ dec m' ++ fl) ->
-  eligible (cfg_of r) k = false.
+Definition other_generation_abi_tag (r : raw) (t : string) : Prop :=
+  (exists M' m' fl, (M' <= 9)%N /\ starts_nondigit fl = true /\ (M', m') <> (r_major r, r_minor r)
+                    /\ t = "cp" ++ dec M' ++ dec m' ++ fl)
+  \/ (exists M', (M' <= 9)%N /\ M' <> r_major r /\ t = "abi" ++ dec M').
+
+Lemma other_generation_abi_tag_foreign r t :
+  wf_raw r = true -> other_generation_abi_tag r t -> t <> "none" /\ ~ In t (c_abi_tags (cfg_of r)).
 Proof.
-  intros W HM' Hfl Hne E. apply (foreign_abi _ _ _ E).
-  destruct (wf_raw_inv r W) as (HM & _).
-  cbn [cfg_of c_abi_tags]. intros [H|[H|[]]]; [discriminate H|].
-  unfold cp_abi, nodot in H. rewrite gen_interp in H. rewrite append_assoc_s in H.
-  cbn [append] in H. inversion H as [H'].
-  destruct (dec_single M' HM') as (c' & Ec' & _).
-  destruct (dec_single (r_major r)) as (c & Ec & _); [lia|].
-  rewrite Ec, Ec' in H'. cbn [append] in H'. inversion H' as [[Hc Hrest]].
-  assert (M' = r_major r) by (apply dec_inj; congruence).
-  pose proof (span_digits_dec m' fl Hfl) as S1. rewrite <- Hrest in S1.
-  rewrite span_digits_dec in S1 by apply abi_flags_nondigit.
-  injection S1 as Hd _. apply dec_inj in Hd. apply Hne. congruence.
+  intros W [(M' & m' & fl & HM' & Hfl & Hne & ->)|(M' & HM' & Hne & ->)].
+  - split; [discriminate|].
+    destruct (wf_raw_inv r W) as (HM & _).
+    cbn [cfg_of c_abi_tags]. intros [H|[H|[]]]; [discriminate H|].
+    unfold cp_abi, nodot in H. rewrite gen_interp in H. rewrite append_assoc_s in H.
+    cbn [append] in H. inversion H as [H'].
+    destruct (dec_single M' HM') as (c' & Ec' & _).
+    destruct (dec_single (r_major r)) as (c & Ec & _); [lia|].
+    rewrite Ec, Ec' in H'. cbn [append] in H'. inversion H' as [[Hc Hrest]].
+    assert (M' = r_major r) by (apply dec_inj; congruence).
+    pose proof (span_digits_dec m' fl Hfl) as S1. rewrite <- Hrest in S1.
+    rewrite span_digits_dec in S1 by apply abi_flags_nondigit.
+    injection S1 as Hd _. apply dec_inj in Hd. apply Hne. congruence.
+  - split; [discriminate|].
+    cbn [cfg_of c_abi_tags]. intros [H|[H|[]]].
+    + cbn [append] in H. inversion H as [H']. apply dec_inj in H'. congruence.
+    + unfold cp_abi in H. rewrite gen_interp in H. discriminate H.
 Qed.
 
-Lemma other_stable_abi r k M' :
-  wf_raw r = true -> (M' <= 9)%N -> M' <> r_major r ->
-  k_abi k = Some ("abi" ++ dec M') -> eligible (cfg_of r) k = false.
+(* every tag of the (possibly compressed) ABI field belongs to another generation *)
+Lemma other_abi_generation r k a :
+  wf_raw r = true -> k_abi k = Some a ->
+  (forall t, In t (split_char dot a) -> other_generation_abi_tag r t) ->
+  eligible (cfg_of r) k = false.
 Proof.
-  intros W HM' Hne E. apply (foreign_abi _ _ _ E).
-  cbn [cfg_of c_abi_tags]. intros [H|[H|[]]].
-  - cbn [append] in H. inversion H as [H']. apply dec_inj in H'. congruence.
-  - unfold cp_abi in H. rewrite gen_interp in H. discriminate H.
+  intros W E H. apply (foreign_abi _ _ _ E). intros t Ht.
+  apply other_generation_abi_tag_foreign; auto.
 Qed.
 
 Example other_abi_generation_nontrivial :
   forall id v b fn,
   eligible (cfg_of r312) (wheel_cand id v b "cp312" "cp311" "linux_x86_64" fn) = false
   /\ eligible (cfg_of r312) (wheel_cand id v b "cp312" "cp37m" "linux_x86_64" fn) = false
-  /\ eligible (cfg_of r312) (wheel_cand id v b "py3" "abi2" "any" fn) = false.
+  /\ eligible (cfg_of r312) (wheel_cand id v b "py3" "abi2" "any" fn) = false
+  /\ eligible (cfg_of r312) (wheel_cand id v b "cp312" "cp311.cp313" "linux_x86_64" fn) = false
+  /\ eligible (cfg_of r312) (wheel_cand id v b "cp312" "cp311.cp312" "linux_x86_64" fn) = true.
 Proof. intros. repeat split; vm_compute; reflexivity. Qed.
 
 (* platforms *)
@@ -1028,20 +1048,20 @@ Qed.
 (* the wheel names only foreign python tags, or an ABI of another CPython generation, or only foreign platforms *)
 Definition foreign_wheel (r : raw) (pyf abif platf : string) : Prop :=
   (forall p, In p (split_char dot pyf) -> foreign_py_tag (cfg_of r) p)
-  \/ (exists M' m' fl, (M' <= 9)%N /\ starts_nondigit fl = true /\ (M', m') <> (r_major r, r_minor r)
-                       /\ abif = "cp" ++ dec M' ++ dec m' ++ fl)
-  \/ (exists M', (M' <= 9)%N /\ M' <> r_major r /\ abif = "abi" ++ dec M')
+  \/ (forall t, In t (split_char dot abif) -> other_generation_abi_tag r t)
   \/ (forall p, In p (split_char dot platf) -> foreign_plat r p).
 
 Lemma foreign_rejected r id v build pyf abif platf fn :
   wf_raw r = true -> foreign_wheel r pyf abif platf ->
   eligible (cfg_of r) (wheel_cand id v build pyf abif platf fn) = false.
 Proof.
-  intros W [H|[(M' & m' & fl & HM & Hfl & Hne & ->)|[(M' & HM & Hne & ->)|H]]].
+  intros W [H|[H|H]].
   - eapply foreign_python_tag; [reflexivity|apply tagset_nonempty|].
     intros p Hp. apply H. unfold tagset in Hp. apply (proj1 (dedup_In _ _)) in Hp. exact Hp.
-  - eapply other_abi_generation; eauto.
-  - eapply other_stable_abi; eauto.
+  - eapply other_abi_generation; eauto. cbn [wheel_cand k_abi].
+    destruct (String.eqb abif "none") eqn:E; [|reflexivity].
+    apply String.eqb_eq in E. subst abif. exfalso.
+    destruct (H "none") as [(M' & m' & fl & _ & _ & _ & X)|(M' & _ & _ & X)]; [cbv; auto|discriminate X|discriminate X].
   - apply foreign_platform. cbn [wheel_cand k_plats]. intros p Hp. apply foreign_plat_spec, H.
     unfold tagset in Hp. apply (proj1 (dedup_In _ _)) in Hp. exact Hp.
 Qed.
@@ -1053,8 +1073,8 @@ Example foreign_wheel_nontrivial :
 Proof.
   split; [|split].
   - left. cbn. intros p [<-|[<-|[]]]; apply foreign_python_tag_nontrivial.
-  - right. left. exists 3%N, 11%N, "". repeat split; try (cbn; lia). intros E. inversion E.
-  - right. right. right. cbn. intros p [<-|[<-|[<-|[]]]]; (split; [discriminate|]).
+  - right. left. cbn. intros t [<-|[]]. left. exists 3%N, 11%N, "". repeat split; try (cbn; lia). intros E. inversion E.
+  - right. right. cbn. intros p [<-|[<-|[<-|[]]]]; (split; [discriminate|]).
     + left. split; [reflexivity|discriminate].
     + right. exists 2%N, 17%N, "aarch64". split; [reflexivity|]. left. discriminate.
     + right. exists 2%N, 37%N, "x86_64". split; [reflexivity|]. right. reflexivity.
